@@ -3,5 +3,5 @@ NEXT Next
 INVARIANT Emit
 CHECK_DEADLOCK FALSE
 CONSTANTS
-  Depth2 = TRUE
-  NonAscii = FALSE
+  Depth2 = FALSE
+  NonAscii = TRUE
